@@ -405,10 +405,15 @@ func PrintAssembly(w io.Writer, rpt *Report, obj plugin.ObjTool, maxFuncs int) e
 	symbols := symbolsFromBinaries(prof, g, o.Symbol, address, obj)
 	symNodes := nodesPerSymbol(g.Nodes, symbols)
 
-	// Sort for printing.
+	// Sort for printing. Collect the symbols in the order they were found
+	// (mapping order) and sort stably, so that symbols the comparators cannot
+	// tell apart - the same function at the same address in two binaries -
+	// do not come out in map iteration order.
 	var syms []*objSymbol
-	for s := range symNodes {
-		syms = append(syms, s)
+	for _, s := range symbols {
+		if _, ok := symNodes[s]; ok {
+			syms = append(syms, s)
+		}
 	}
 	byName := func(a, b *objSymbol) bool {
 		if na, nb := a.sym.Name[0], b.sym.Name[0]; na != nb {
@@ -417,7 +422,7 @@ func PrintAssembly(w io.Writer, rpt *Report, obj plugin.ObjTool, maxFuncs int) e
 		return a.sym.Start < b.sym.Start
 	}
 	if maxFuncs < 0 {
-		sort.Sort(orderSyms{syms, byName})
+		sort.Stable(orderSyms{syms, byName})
 	} else {
 		byFlatSum := func(a, b *objSymbol) bool {
 			suma, _ := symNodes[a].Sum()
@@ -427,7 +432,7 @@ func PrintAssembly(w io.Writer, rpt *Report, obj plugin.ObjTool, maxFuncs int) e
 			}
 			return byName(a, b)
 		}
-		sort.Sort(orderSyms{syms, byFlatSum})
+		sort.Stable(orderSyms{syms, byFlatSum})
 		if len(syms) > maxFuncs {
 			syms = syms[:maxFuncs]
 		}
